@@ -211,5 +211,17 @@ def check(run, ctx):
         run.ok(W4, "is_ignored any(matches_pattern over repo_patterns)")
     else:
         run.finding(W4, "IgnoreDirectiveParser.is_ignored", "pattern-loop", "does not test every repository pattern with matches_pattern", f.loc)
+    W5 = run.rule("W5", "the CLI partitions its targets by is_file()/is_dir() only and passes both groups on unfiltered", floor=3,
+                  decides="every explicitly named file is linted (unless excluded/ignored), also when a directory target shares a name prefix with it")
+    sf = repo.func("src.cli.utils.separate_files_and_dirs")
+    comps = [n for n in ast.walk(sf.node) if isinstance(n, ast.ListComp)]
+    conds = sorted(ast.unparse(c) for n in comps for c in n.generators[0].ifs)
+    par = sf.node.args.args[0].arg
+    ok = len(comps) == 2 and all(len(n.generators[0].ifs) == 1 and ast.unparse(n.generators[0].iter) == par for n in comps) and [c.split(".")[-1] for c in conds] == ["is_dir()", "is_file()"] and not [n for n in ast.walk(sf.node) if isinstance(n, (ast.For, ast.While))]
+    (run.ok(W5, "separate_files_and_dirs", f"partition by {conds}") if ok else run.finding(W5, "separate_files_and_dirs", f"extra-filter:{conds}", "targets are filtered by more than is_file()/is_dir(): an explicitly named file can be dropped before it is linted", sf.loc))
+    el = repo.func("src.cli.utils.execute_linting_on_paths")
+    for callee, var in (("lint_files", "files"), ("lint_files_parallel", "files")):
+        c = next((n for n in ast.walk(el.node) if is_call_named(n, callee)), None)
+        (run.ok(W5, f"execute_linting_on_paths -> {callee}", f"receives `{var}` unchanged") if c is not None and c.args and isinstance(c.args[0], ast.Name) and c.args[0].id == var else run.finding(W5, "execute_linting_on_paths", f"arg:{callee}", f"{callee} does not receive the unfiltered file group", el.loc))
     run.extra["call_resolution"] = f"{cg.n_resolved}/{cg.n_calls}"
     return __doc__
